@@ -13,7 +13,7 @@ CONSTANTS
   NChecks = 0
   MaxVer = 1
   DistShared = FALSE
-  NEntries = 0
+  NEntries = 2
   NestedRead = FALSE
-  Part = "informer"
-INVARIANTS NoNilUse
+  Part = "rwlock"
+INVARIANTS StoreNeverStuck NoReentrantRLock
